@@ -20,7 +20,8 @@ if WT:
     assert rc0 == 0, out0
 # changes whose breakage needs a history on one long-lived object: the history check (C10) is what catches them
 EXTRA = {"C04-m2": ["C10"], "C11-m3": ["C10"], "C02-m4": ["C10"], "C15-m5": ["C17"], "C01-m3": ["C08"], "C07-m6": ["C08"],
-         "C01-m7": ["C09"], "C04-m7": ["C10"], "C13-m8": ["C09"], "C12-m9": ["C10"], "C05-m10": ["C10"]}
+         "C01-m7": ["C09"], "C04-m7": ["C10"], "C13-m8": ["C09"], "C12-m9": ["C10"], "C05-m10": ["C10"],
+         "C12-m12": ["C06"], "C16-m13": ["C11"], "C10-m11": ["C05"], "C03-m12": ["C05"]}
 rc, out = sh("git -C %s diff --quiet" % TARGET)
 assert rc == 0, TARGET + " has uncommitted changes"
 res = {}
